@@ -4,7 +4,8 @@ import RxProofs.Lemmas.Thr2Aio
 
 Property theorems only (model: `RxModel/Thr2Aio.lean`, soundness of the reachable-set argument:
 `RxProofs/Lemmas/Thr2Aio.lean`).  Every theorem quantifies over ALL schedules: any list of actions
-(loop-thread step / user-thread step / the clock reaching the due time / the loop being started), of
+(loop-thread step / user-thread step / the clock reaching the due time / the loop being started /
+the loop moving a due timer to its ready queue), of
 any length; an action that is not enabled is skipped.  The state space of one scheduled action is
 finite, so the invariant is established by computing the reachable set and checking (by `decide`, in
 the kernel) that it is closed under every action and contains only safe states.
@@ -46,7 +47,13 @@ theorem runs_on_loop_not_early (c : Cfg) (hc : c.test = .fixed) (sch : List Nat)
       obtain ⟨⟨t', l⟩, h1, h2⟩ := hs
       simp only at h2; subst h2
       split at h1 <;> cases h1; rfl
-    | a + 4 => simp [step, stepL] at hs
+    | 4 =>
+      exfalso; apply hne
+      simp only [step, stepL, Option.map_eq_some_iff] at hs
+      obtain ⟨⟨t', l⟩, h1, h2⟩ := hs
+      simp only at h2; subst h2
+      exact collectStep_started c s t' l h1
+    | a + 5 => simp [step, stepL] at hs
 
 theorem late_false (c : Cfg) (hc : c.test = .fixed) (sch : List Nat) : (run c (init c) sch).late = false := by
   have h := fixed_safe c hc sch
@@ -88,15 +95,15 @@ thread disposes (pops the only handle, finds the list empty, returns), `stage2` 
 clock reaches the due time, the loop runs the action — after `dispose()` returned. -/
 theorem foreign_direct_cancel_leaks :
     (run ⟨.ts, .rel, .foreign, .asIs⟩ (init ⟨.ts, .rel, .foreign, .asIs⟩)
-      [1, 1, 0, 1, 1, 1, 0, 0, 2, 0, 0]).late = true := by decide
+      [1, 1, 0, 1, 1, 1, 0, 0, 2, 4, 0]).late = true := by decide
 
 /-! Non-vacuity: the action does run when nobody disposes it in time, and a timely dispose prevents it. -/
-example : (run ⟨.ts, .rel, .foreign, .fixed⟩ (init ⟨.ts, .rel, .foreign, .fixed⟩) [1, 1, 0, 0, 0, 2, 0, 0]).started = true := by
+example : (run ⟨.ts, .rel, .foreign, .fixed⟩ (init ⟨.ts, .rel, .foreign, .fixed⟩) [1, 1, 0, 0, 0, 2, 4, 0]).started = true := by
   decide
 example : (run ⟨.ts, .rel, .foreign, .fixed⟩ (init ⟨.ts, .rel, .foreign, .fixed⟩)
-    [1, 1, 0, 1, 1, 0, 0, 0, 1, 2, 0, 0, 0]).returned = true ∧
+    [1, 1, 0, 1, 1, 0, 0, 0, 1, 2, 4, 0, 0]).returned = true ∧
     (run ⟨.ts, .rel, .foreign, .fixed⟩ (init ⟨.ts, .rel, .foreign, .fixed⟩)
-    [1, 1, 0, 1, 1, 0, 0, 0, 1, 2, 0, 0, 0]).started = false := by decide
+    [1, 1, 0, 1, 1, 0, 0, 0, 1, 2, 4, 0, 0]).started = false := by decide
 example : (run ⟨.plain, .soon, .notRunning, .fixed⟩ (init ⟨.plain, .soon, .notRunning, .fixed⟩) [1, 1, 3, 0]).started = false ∧
     (run ⟨.plain, .soon, .notRunning, .fixed⟩ (init ⟨.plain, .soon, .notRunning, .fixed⟩) [1, 1, 3, 0]).returned = true := by
   decide
